@@ -159,6 +159,10 @@ func (state *Runtime) LetGlobal(name string, val interface{}) {
 		sc = sc.parent
 	}
 
+	if sc.variables == nil {
+		// Execute was given no VarMap and nothing has been declared yet
+		sc.variables = make(VarMap)
+	}
 	sc.variables[name] = reflect.ValueOf(val)
 }
 
@@ -169,6 +173,10 @@ func (state *Runtime) Set(name string, val interface{}) error {
 
 // Let initialises a variable in the current template scope (possibly shadowing an existing variable of the same name in a parent scope).
 func (state *Runtime) Let(name string, val interface{}) {
+	if state.scope.variables == nil {
+		// Execute was given no VarMap and nothing has been declared yet
+		state.scope.variables = make(VarMap)
+	}
 	state.scope.variables[name] = reflect.ValueOf(val)
 }
 
